@@ -59,6 +59,16 @@ def gen(rng, tier, index):
         for x in Xtr:
             x[:, col] = 0
     Xte = [x.copy() for x in Xtr[: min(nte, ntr)]] if form == "block3d_shared" else strucs(nte, dts[1])
+    nearly_normalised = False
+    if index % 6 == 4 and dts == ["float64", "float64"] and form != "block3d_shared":
+        # features that arrive almost, but not exactly, normalised (the global scale factor of the training set is
+        # 1 -+ 1e-7 .. 8e-6, e.g. normalised in single precision): they are still divided by that factor
+        s_ = float(np.sqrt(np.mean(np.vstack(Xtr) ** 2, axis=0).sum()))
+        if s_ > 0:
+            g_ = (1.0 + (8e-6, -6e-6, 2e-6, -8e-6, 1e-7, -4e-6)[(index // 6) % 6]) / s_
+            Xtr = [x * g_ for x in Xtr]
+            Xte = [x * g_ for x in Xte]
+            nearly_normalised = True
     regrouped = None
     if form in ("fresh", "reused") and ntr >= 2 and rng.random() < 0.2:
         # the test set is made of the training environments themselves, in the same order: the same structures, the
@@ -77,6 +87,7 @@ def gen(rng, tier, index):
         "Xtr": Xtr,
         "Xte": Xte,
         "regrouped": regrouped,
+        "nearly_normalised": nearly_normalised,
         "form": form,
         "unseen": bool(unseen),
         "alpha_array": gens.pick(rng, (None, None, None, "0d", "1d")),
@@ -175,6 +186,8 @@ def run(case, j):
         j.note("integer_typed_structures")
     if case.get("unseen"):
         j.note("features_absent_from_the_training_set")
+    if case.get("nearly_normalised"):
+        j.note("training_sets_with_a_scale_factor_within_1e-5_of_one")
     if case.get("regrouped"):
         j.note("test_sets_made_of_the_training_environments")
         if case["regrouped"] == "same_count":
